@@ -19,10 +19,17 @@ type VerifShardManager struct {
 }
 
 func NewVerifShardManager(pool rpc.ClientPool, serviceAddress string, namespace string, requestTimeout time.Duration) (*VerifShardManager, error) {
-	strategy := &shardStrategyImpl{hashFunc: func(key string) uint32 {
+	return NewVerifShardManagerWithHash(pool, serviceAddress, namespace, requestTimeout, func(key string) uint32 {
 		code, _ := strconv.ParseUint(key, 10, 32)
 		return uint32(code)
-	}}
+	})
+}
+
+// NewVerifShardManagerWithHash takes the key-to-hash function from the harness. ShardManager.Get calls it while it
+// holds the manager's read lock, which lets a harness park a reader there.
+func NewVerifShardManagerWithHash(pool rpc.ClientPool, serviceAddress string, namespace string, requestTimeout time.Duration,
+	hashFunc func(key string) uint32) (*VerifShardManager, error) {
+	strategy := &shardStrategyImpl{hashFunc: hashFunc}
 	sm, err := NewShardManager(strategy, pool, serviceAddress, namespace, requestTimeout)
 	if err != nil {
 		return nil, err
@@ -53,4 +60,23 @@ func (v *VerifShardManager) Get(code uint32) (id int64, panicked bool) {
 		}
 	}()
 	return v.sm.Get(strconv.FormatUint(uint64(code), 10)), false
+}
+
+// GetKey is ShardManager.Get(key).
+func (v *VerifShardManager) GetKey(key string) (id int64, panicked bool) {
+	defer func() {
+		if r := recover(); r != nil {
+			panicked = true
+		}
+	}()
+	return v.sm.Get(key), false
+}
+
+// WriterQueued reports whether a writer holds or waits for the manager's lock (TryRLock fails then).
+func (v *VerifShardManager) WriterQueued() bool {
+	if v.sm.TryRLock() {
+		v.sm.RUnlock()
+		return false
+	}
+	return true
 }
